@@ -45,6 +45,12 @@ CFG = {
              "current contents, NewBuffer aliases by contract); ops that panic on their argument are ordinary steps in the middle "
              "of histories and are injected right after successful reads so that Unread* follows them; ONil = a method called on "
              "a nil *Buffer of either type (String answers <nil>, Len is a nil dereference); "
+             "class eq-utf8 (56 histories): every family of malformed / boundary UTF-8 (surrogate halves ED A0..BF xx, overlong C0/C1, "
+             "E0 80.., F0 80.., beyond U+10FFFF F4 90.., F5..FF, lone continuations, bad 2nd/3rd/4th byte, truncated tails, the "
+             "acceptRanges edges) placed where ReadRune starts decoding and drained rune by rune with Unread* in between; scripted "
+             "readers / writers also answer with errors that must keep their identity (wrapping io.EOF, wrapping "
+             "io.ErrUnexpectedEOF, a custom Is(io.EOF) type, errors.Join with io.EOF, io.ErrUnexpectedEOF, a writer's io.EOF), "
+             "(0, nil) reads and EOF together with bytes; "
              "a case is non-trivial when at least two of its operations moved bytes (wrote "
              "something or consumed at least one byte); distinct = distinct Coq term (operations + everything observed)"),
     "trusted": ["bytes.Buffer of the installed Go toolchain as the reference implementation (observed, not proved)",
